@@ -209,11 +209,18 @@ def _threading(ctx, P):
 def _kernel(ctx, P):
     kfi = P.func("transform:_interp_1d_linear")
     rev = SliceV(None, None, -1)
+    from ..concrete import REPRESENTATIVES, cond_hook
+
+    nan = float("nan")
+    # theta as one representative per direction (with a missing value at either end): the direction test of the source,
+    # however it is spelled, is evaluated on it
+    directions = {"increasing": [nan] + REPRESENTATIVES["increasing"], "decreasing": REPRESENTATIVES["decreasing"] + [nan]}
     for mask in (True, False):
+      for direction, theta_rep in directions.items():
         for bypass in (True, False):
             # order types of the level against min/max
             for slot, rank_lev, outside in (("below", 0, True), ("=min", 2, False), ("inside", 4, False), ("=max", 6, False), ("above", 8, True)):
-                inst = f"kernel mask_edges={mask} bypass_checks={bypass} level {slot}"
+                inst = f"kernel mask_edges={mask} bypass_checks={bypass} {direction} theta, level {slot}"
                 order = OrderType({"tmin": 2, "tmax": 6, "lev": rank_lev})
                 interp_calls = []
 
@@ -227,7 +234,8 @@ def _kernel(ctx, P):
                 def m_nanmin(ev, args, kw, node):
                     return Lin.sym("tmin")
 
-                ev = KernelEval(P, order, models={"numpy.interp": m_interp, "numpy.nanmax": m_nanmax, "numpy.nanmin": m_nanmin})
+                ev = KernelEval(P, order, models={"numpy.interp": m_interp, "numpy.nanmax": m_nanmax, "numpy.nanmin": m_nanmin},
+                                cond_hook=cond_hook({"theta": theta_rep, "phi": [float(i) for i in range(len(theta_rep))]}))
                 out = Obj("ndarray", "output")
                 try:
                     outs = ev.run_paths(kfi, lambda: dict(phi=Obj("ndarray", "phi"), theta=Obj("ndarray", "theta"), target_theta_levels=[Lin.sym("lev")], mask_edges=mask, bypass_checks=bypass, output=out))
@@ -255,7 +263,11 @@ def _kernel(ctx, P):
                         if bypass and (fx or ff or flip_dec):
                             bad2 = bad2 or "the direction check / flip is executed although bypass_checks is set"
                         if not bypass and not flip_dec:
-                            bad2 = bad2 or "without bypass_checks no direction test is made"
+                            # the direction test was decided on the representative theta: the flip must follow it
+                            if direction == "decreasing" and not (fx and ff):
+                                bad2 = bad2 or "theta decreasing along the axis (bypass_checks off): theta and phi must be reversed before np.interp, which needs increasing sample points"
+                            if direction == "increasing" and (fx or ff):
+                                bad2 = bad2 or "theta increasing along the axis: theta/phi are reversed although they are already in the order np.interp needs"
                     sets = [e for e in o.events if e[0] == "setitem" and isinstance(e[1], Obj) and e[1].name == "output"]
                     whole = [e for e in sets if isinstance(e[2], SliceV) and e[2].key() == (None, None, None)]
                     if not whole or not (isinstance(whole[0][3], Obj) and whole[0][3].name == "INTERP-RESULT"):
